@@ -54,6 +54,8 @@ pub fn property() -> Property {
 #[derive(Clone, Debug)]
 enum Op {
   Announce(usize),
+  /// announcement that advertises another lease duration than before (index into the pool)
+  AnnounceWithLease(usize, usize),
   Alive(usize),
   Advance(u64), // microseconds
   Cleanup,
@@ -117,8 +119,9 @@ pub fn run(_scenario: u32, choices: &[u8], _strict: bool) -> Outcome {
   let mut ops = Vec::new();
   for _ in 0..nops {
     let p = c.pick(np);
-    ops.push(match c.weighted(&[6, 5, 10, 6, 2, 5]) {
+    ops.push(match c.weighted(&[6, 5, 10, 6, 2, 5, 2]) {
       0 => Op::Announce(p),
+      6 => Op::AnnounceWithLease(p, c.pick(6)),
       1 => Op::Alive(p),
       2 => {
         // around the lease of some participant
@@ -146,7 +149,23 @@ pub fn run(_scenario: u32, choices: &[u8], _strict: bool) -> Outcome {
   let mut nontrivial = false;
   let topic = "rig_topic";
   for (opno, op) in ops.iter().enumerate() {
+    // a participant may advertise another lease duration in a later announcement: from then on
+    // that one counts
+    let op = &match op {
+      Op::AnnounceWithLease(p, l) => {
+        let (lease, lease_us, _) = lease_pool[*l];
+        if ps[*p].lease_us != lease_us {
+          o.label("lease-changed-by-reannouncement");
+          nontrivial = true;
+        }
+        ps[*p].lease = lease;
+        ps[*p].lease_us = lease_us;
+        Op::Announce(*p)
+      }
+      other => other.clone(),
+    };
     match op {
+      Op::AnnounceWithLease(..) => unreachable!("rewritten above"),
       Op::Announce(p) => {
         let m = &mut ps[*p];
         let was_new = db.update_participant(&discovery_rig::participant_data(m.prefix, 70 + *p as u8, m.lease));
